@@ -4,6 +4,7 @@ import EpgVerif.Gen.TiePhiOp
 import EpgVerif.Gen.TieEOp
 import EpgVerif.Gen.TiePOp
 import EpgVerif.Gen.TieROp
+import EpgVerif.Tie.ApplySites
 open EpgVerif.Props.C01
 #print axioms synth_shift
 #print axioms step
@@ -12,3 +13,4 @@ open EpgVerif.Props.C01
 #print axioms T_is_cartesian_rotation
 #print axioms relaxed_formula
 #print axioms E_solves_bloch
+#print axioms EpgVerif.Tie.ApplySites.sites_as_modelled
